@@ -146,12 +146,15 @@ func printResult(r *FuncResult, verbose bool) {
 	status := "OK"
 	if r.GenError != "" {
 		status = "GENERR"
-	} else if ok != n {
+	} else if ok != n || len(r.Vacuous) > 0 {
 		status = "FAIL"
 	}
 	fmt.Printf("%-6s %s  obligations=%d discharged=%d presat=%s iter=%d %.1fs\n", status, r.Key, n, ok, r.PreSat, r.Iter, r.Seconds)
 	if r.GenError != "" {
 		fmt.Println("   ", r.GenError)
+	}
+	for _, v := range r.Vacuous {
+		fmt.Println("    VACUOUS: unreachable under the hypotheses:", v)
 	}
 	for _, nt := range r.Notes {
 		fmt.Println("    note:", nt)
